@@ -515,6 +515,19 @@ func c08FrameCorpus() []c08FrameCase {
 			c08FrameCase{Mode: "frame", Args: []GAttr{grp("g", ctor, leaf("c", 1), leaf("c", 2), leaf("b", 3), leaf("b", 4), leaf("a", 5), leaf("a", 6), leaf("d", 7))}, Form: 0, EP: "Print", Order: order},
 		)
 	}
+	// large groups (more members than any small fixed-size scratch array holds), unsorted, one key twice
+	for ctor := 0; ctor < 5; ctor++ {
+		for _, n := range []int{6, 10, 17, 24, 40} {
+			var items []GAttr
+			for i := 0; i < n; i++ {
+				items = append(items, leaf(fmt.Sprintf("k%02d", (i*7+3)%n), int64(i)))
+			}
+			items = append(items, leaf("k01", -1))
+			out = append(out,
+				c08FrameCase{Mode: "frame", Args: []GAttr{leaf("x", 1), grp("big", ctor, items...)}, Form: ctor % 4, EP: "Info", Order: order},
+				c08FrameCase{Mode: "frame", LAttrs: []GAttr{grp("lbig", ctor, items...)}, Args: []GAttr{leaf("x", 1)}, Form: 3, EP: "Warn", Order: order})
+		}
+	}
 	// the entry points that pass no attribute list: the logger's own (unsorted, duplicated) attributes must stay as they are
 	for _, ep := range []string{"Bridge", "ThruNil"} {
 		out = append(out,
